@@ -32,13 +32,27 @@ func (api *PcApi) HandleLogsStream(c *gin.Context) {
 	}
 
 	done := make(chan struct{})
+	// serialises the writers of this connection (one per followed process); a lock shared by
+	// all connections let one client that stopped reading stall every other client
+	wsMtx := &sync.Mutex{}
 	if follow {
 		go handleIncoming(ws, done)
 	}
 	for _, procName := range procNames {
 		logChan := make(chan LogMessage, 256)
+		// closed by the forwarder when it exits (client gone, write error): whoever is queueing
+		// a line for this follower - the followed process, under its log lock - stops waiting
+		gone := make(chan struct{})
 		chanCloseMtx := &sync.Mutex{}
 		isChannelClosed := false
+		send := func(msg LogMessage) bool {
+			select {
+			case logChan <- msg:
+				return true
+			case <-gone:
+				return false
+			}
+		}
 		connector := pclog.NewConnector(
 			func(messages []string) {
 				for _, message := range messages {
@@ -46,7 +60,9 @@ func (api *PcApi) HandleLogsStream(c *gin.Context) {
 						Message:     message,
 						ProcessName: procName,
 					}
-					logChan <- msg
+					if !send(msg) {
+						return
+					}
 				}
 				if !follow {
 					chanCloseMtx.Lock()
@@ -65,11 +81,11 @@ func (api *PcApi) HandleLogsStream(c *gin.Context) {
 				if isChannelClosed {
 					return 0, nil
 				}
-				logChan <- msg
+				send(msg)
 				return len(message), nil
 			},
 			endOffset)
-		go api.handleLog(ws, procName, connector, logChan, done)
+		go api.handleLog(ws, wsMtx, procName, connector, logChan, done, gone)
 
 		err = api.project.GetLogsAndSubscribe(procName, connector)
 		if err != nil {
@@ -80,7 +96,7 @@ func (api *PcApi) HandleLogsStream(c *gin.Context) {
 
 }
 
-func (api *PcApi) handleLog(ws *websocket.Conn, procName string, connector *pclog.Connector, logChan chan LogMessage, done chan struct{}) {
+func (api *PcApi) handleLog(ws *websocket.Conn, wsMtx *sync.Mutex, procName string, connector *pclog.Connector, logChan chan LogMessage, done chan struct{}, gone chan struct{}) {
 	defer func(project app.IProject, name string, observer pclog.LogObserver) {
 		err := project.UnSubscribeLogger(name, observer)
 		if err != nil {
@@ -88,12 +104,18 @@ func (api *PcApi) handleLog(ws *websocket.Conn, procName string, connector *pclo
 		}
 	}(api.project, procName, connector)
 	defer ws.Close()
+	// first of all (deferred calls run last to first): release whoever is queueing a line,
+	// it holds the log lock that the unsubscription needs
+	defer close(gone)
 	for {
 		select {
 		case msg, open := <-logChan:
-			api.wsMtx.Lock()
+			if !open {
+				return
+			}
+			wsMtx.Lock()
 			err := ws.WriteJSON(&msg)
-			api.wsMtx.Unlock()
+			wsMtx.Unlock()
 			if err != nil {
 				if errors.Is(err, net.ErrClosed) {
 					return
@@ -101,12 +123,8 @@ func (api *PcApi) handleLog(ws *websocket.Conn, procName string, connector *pclo
 				log.Err(err).Msg("Failed to write to socket")
 				return
 			}
-			if !open {
-				return
-			}
 		case <-done:
 			log.Warn().Msg("Socket closed remotely")
-			close(logChan)
 			return
 		}
 
